@@ -118,7 +118,7 @@ def histories(rounds):
                     per[k].append((eid, "r", int(res.split(":")[1]), o["inv"], o["ret"], o)); eid += 1
                 per[k].append((eid, "d", 0, o["inv"], o["ret"], o))
             elif name == "gof" and res.startswith("got:"):
-                _, v, fetched = res.split(":")
+                _, v, fetched, tread = (res.split(":") + ["0"])[:4]
                 if fetched == "1":
                     # its fetch ran: the fetched value (this operation's own) may have been inserted
                     per[k].append((eid, "w", o["v"], o["inv"], o["ret"], o)); eid += 1
@@ -158,7 +158,31 @@ def one(pid, script):
         return "the harness ended abnormally", st, nops, lines
     if st["handles_bad"]:
         return f"{st['handles_bad']} entry handles changed their value after the entry was replaced / evicted / cleared", st, nops, lines
-    if pid == "C02":
+    if pid == "C11":
+        # C11: a fetched value is as of the moment the origin was read (the fetch closure was invoked, `tread`).  An explicit
+        # insert of the key that was invoked later is newer; once it has completed, no lookup may see the fetched value
+        # (the fetch either found the insert in memory, or was registered before it and is closed by it).
+        for r, ops in rounds.items():
+            for g in ops:
+                if g["op"] != "gof" or not g["res"].startswith("got:"):
+                    continue
+                p = g["res"].split(":")
+                if len(p) < 4 or p[2] != "1":
+                    continue
+                vg, tread = g["v"], int(p[3])
+                newer = [i for i in ops if i["op"] == "ins" and i["k"] == g["k"] and i["inv"] > tread]
+                for rd in ops:
+                    if rd["k"] != g["k"]:
+                        continue
+                    seen = (rd["op"] == "get" and rd["res"] == f"hit:{vg}") or (rd["op"] == "rm" and rd["res"] == f"some:{vg}") or \
+                           (rd["op"] == "gof" and rd is not g and rd["res"].startswith(f"got:{vg}:"))
+                    if seen and any(i["ret"] < rd["inv"] for i in newer):
+                        i = [i for i in newer if i["ret"] < rd["inv"]][0]
+                        return (f"history r{r}k{g['k']}: thread {rd['t']} op {rd['i']} ({rd['op']}) saw value {vg}, fetched by thread "
+                                f"{g['t']} op {g['i']} from an origin read at {tread}, although insert of {i['v']} (thread {i['t']} op "
+                                f"{i['i']}, invoked at {i['inv']}) had completed at {i['ret']}: an explicit insert was overwritten by "
+                                f"an older fetch result"), st, nops, lines
+    if pid in ("C02", "C11"):
         hs = histories(rounds)
         bad = check_histories(hs)
         if bad:
